@@ -110,7 +110,7 @@ def zeros (n : Nat) : Bytes := List.replicate n 0
 
 /-! ## reader.rs — `BytecodeReader` -/
 
-def Rd (α : Type) := Bytes → Except Err (α × Bytes)
+abbrev Rd (α : Type) := Bytes → Except Err (α × Bytes)
 
 namespace Rd
 @[inline] protected def pure (a : α) : Rd α := fun s => .ok (a, s)
@@ -569,12 +569,14 @@ def encTypeEntry (e : TypeEntry) : Bytes :=
 
 /-- `compute_type_offsets`: `cursor = 4 + 4*n` (in `u32`, wrapping multiplication is not reachable
 for tables that fit a section), then `saturating_add` of each entry length. -/
+def nextTypeOffset (cursor : UInt32) (bufLen : Nat) : UInt32 :=
+  let len := (UInt32.ofNat bufLen).toNat                           -- `buf.len() as u32`
+  if cursor.toNat + len ≥ 4294967296 then u32Max                   -- `saturating_add`
+  else UInt32.ofNat (cursor.toNat + len)
+
 def computeTypeOffsetsFrom (cursor : UInt32) : List Bytes → List UInt32
   | [] => []
-  | b :: rest =>
-    let next := if cursor.toNat + b.length ≥ 4294967296 then u32Max
-                else UInt32.ofNat (cursor.toNat + (UInt32.ofNat b.length).toNat)
-    cursor :: computeTypeOffsetsFrom next rest
+  | b :: rest => cursor :: computeTypeOffsetsFrom (nextTypeOffset cursor b.length) rest
 
 def computeTypeOffsets (bufs : List Bytes) : List UInt32 :=
   computeTypeOffsetsFrom (4 + UInt32.ofNat bufs.length * 4) bufs
@@ -588,36 +590,61 @@ def encTypeTable (minor : UInt16) (t : TypeTable) : Bytes :=
   else
     encU32 (UInt32.ofNat t.entries.length) ++ t.entries.flatMap encTypeEntry
 
+/-- `idx > 0 && offset < offsets[idx - 1]` -/
+def unsortedAfter (prev : Option UInt32) (offset : Nat) : Bool :=
+  match prev with
+  | some p => decide (offset < p.toNat)
+  | none => false
+
+/-- `if idx + 1 < offsets.len() { offsets[idx + 1] } else { payload.len() }` -/
+def nextOffset (payload : Bytes) (rest : List UInt32) : Nat :=
+  match rest with
+  | n :: _ => n.toNat
+  | [] => payload.length
+
+/-- one iteration of the loop of `decode_type_table` (minor ≥ 1): bounds checks, the entry decoded
+from `payload[offset..next]`, which must be consumed exactly -/
+def typeEntryAt (payload : Bytes) (base : Nat) (prev : Option UInt32) (offset next : Nat) :
+    Except Err TypeEntry :=
+  if offset < base ∨ offset > payload.length ∨ next > payload.length ∨ next < offset then
+    .error (.invalidSection .typeOffsetOutOfBounds)
+  else if unsortedAfter prev offset then
+    .error (.invalidSection .typeOffsetsNotSorted)
+  else
+    match decTypeEntry ((payload.drop offset).take (next - offset)) with
+    | .error e => .error e
+    | .ok (entry, left) =>
+      if left.length ≠ 0 then .error (.invalidSection .typeEntryLengthMismatch) else .ok entry
+
 /-- the `for (idx, offset) in offsets.iter().enumerate()` loop of `decode_type_table` (minor ≥ 1).
-`prev` is `offsets[idx-1]` (`none` for idx = 0), `offs` the offsets from `idx` on. -/
+`prev` is `offsets[idx-1]` (`none` for idx = 0), the list the offsets from `idx` on. -/
 def decTypeEntriesAt (payload : Bytes) (base : Nat) : Option UInt32 → List UInt32 → Except Err (List TypeEntry)
   | _, [] => .ok []
-  | prev, off :: rest => do
-    let offset := off.toNat
-    let next := match rest with
-      | n :: _ => n.toNat
-      | [] => payload.length
-    if offset < base || offset > payload.length || next > payload.length || next < offset then
-      throw (.invalidSection .typeOffsetOutOfBounds)
-    match prev with
-    | some p => if offset < p.toNat then throw (.invalidSection .typeOffsetsNotSorted)
-    | none => pure ()
-    let (entry, left) ← decTypeEntry ((payload.drop offset).take (next - offset))
-    if left.length ≠ 0 then throw (.invalidSection .typeEntryLengthMismatch)
-    let es ← decTypeEntriesAt payload base (some off) rest
-    pure (entry :: es)
+  | prev, off :: rest =>
+    match typeEntryAt payload base prev off.toNat (nextOffset payload rest) with
+    | .error e => .error e
+    | .ok entry =>
+      match decTypeEntriesAt payload base (some off) rest with
+      | .error e => .error e
+      | .ok es => .ok (entry :: es)
 
 /-- `decode_type_table` -/
-def decTypeTable (minor : UInt16) (payload : Bytes) : Except Err TypeTable := do
-  let (count, r) ← readU32 payload
-  if minor ≥ 1 then
-    let (offsets, r') ← readN count.toNat readU32 r
-    let base := payload.length - r'.length      -- `reader.pos()`
-    let entries ← decTypeEntriesAt payload base none offsets
-    pure { offsets, entries }
-  else
-    let (entries, _) ← readN count.toNat decTypeEntry r
-    pure { offsets := [], entries }
+def decTypeTable (minor : UInt16) (payload : Bytes) : Except Err TypeTable :=
+  match readU32 payload with
+  | .error e => .error e
+  | .ok (count, r) =>
+    if minor ≥ 1 then
+      match readN count.toNat readU32 r with
+      | .error e => .error e
+      | .ok (offsets, r') =>
+        let base := payload.length - r'.length      -- `reader.pos()`
+        match decTypeEntriesAt payload base none offsets with
+        | .error e => .error e
+        | .ok entries => .ok { offsets, entries }
+    else
+      match readN count.toNat decTypeEntry r with
+      | .error e => .error e
+      | .ok (entries, _) => .ok { offsets := [], entries }
 
 -- CONST_POOL -----------------------------------------------------------------------------------
 
@@ -878,12 +905,15 @@ def validateSectionEntries (fileLen : Nat) (entries : List SectionEntry) : Excep
 /-- the `for entry in entries` loop of `decode` -/
 def decodeSections (minor : UInt16) (bytes : Bytes) : List SectionEntry → Except Err (List Section)
   | [] => .ok []
-  | e :: rest => do
+  | e :: rest =>
     let start := e.offset.toNat
     let stop := start + e.length.toNat
-    let data ← decodeSectionData minor e.id (sliceOf bytes start stop)
-    let ss ← decodeSections minor bytes rest
-    pure ({ id := e.id, flags := e.flags, data } :: ss)
+    match decodeSectionData minor e.id (sliceOf bytes start stop) with
+    | .error err => .error err
+    | .ok data =>
+      match decodeSections minor bytes rest with
+      | .error err => .error err
+      | .ok ss => .ok ({ id := e.id, flags := e.flags, data } :: ss)
 
 structure Header where
   major : UInt16
@@ -907,24 +937,37 @@ def decHeader : Rd Header := do
   let checksum ← readU32
   pure { major, minor, flags, headerSize, sectionCount, tableOff, checksum }
 
+/-- the checks of `decode` between the header and the section table -/
+def checkHeader (crc : Bytes → UInt32) (bytes : Bytes) (h : Header) : Except Err Unit :=
+  if h.headerSize.toNat < headerSize then .error (.invalidHeader .headerSizeTooSmall)
+  else if h.tableOff.toNat < headerSize then .error (.invalidHeader .sectionTableBeforeHeader)
+  else if h.tableOff.toNat % 4 ≠ 0 then .error .sectionAlignment
+  else if h.tableOff.toNat + h.sectionCount.toNat * sectionEntrySize > bytes.length then
+    .error (.invalidSectionTable .sectionTableOutOfBounds)
+  else if h.flags &&& 1 ≠ 0 ∧ crc (bytes.drop h.tableOff.toNat) ≠ h.checksum then
+    .error (.invalidChecksum h.checksum (crc (bytes.drop h.tableOff.toNat)))
+  else if h.major ≠ supportedMajor then .error (.unsupportedVersion h.major h.minor)
+  else .ok ()
+
 /-- `BytecodeModule::decode` -/
-def decode (crc : Bytes → UInt32) (bytes : Bytes) : Except Err Module := do
-  let (h, _) ← decHeader bytes
-  if h.headerSize.toNat < headerSize then throw (.invalidHeader .headerSizeTooSmall)
-  let tableOff := h.tableOff.toNat
-  if tableOff < headerSize then throw (.invalidHeader .sectionTableBeforeHeader)
-  if tableOff % 4 ≠ 0 then throw .sectionAlignment
-  let tableLen := h.sectionCount.toNat * sectionEntrySize
-  let tableEnd := tableOff + tableLen
-  if tableEnd > bytes.length then throw (.invalidSectionTable .sectionTableOutOfBounds)
-  if h.flags &&& 1 ≠ 0 then
-    let actual := crc (bytes.drop tableOff)
-    if actual ≠ h.checksum then throw (.invalidChecksum h.checksum actual)
-  if h.major ≠ supportedMajor then throw (.unsupportedVersion h.major h.minor)
-  let (entries, _) ← readN h.sectionCount.toNat decSectionEntry (sliceOf bytes tableOff tableEnd)
-  validateSectionEntries bytes.length entries
-  let sections ← decodeSections h.minor bytes entries
-  pure { major := h.major, minor := h.minor, flags := h.flags, sections }
+def decode (crc : Bytes → UInt32) (bytes : Bytes) : Except Err Module :=
+  match decHeader bytes with
+  | .error e => .error e
+  | .ok (h, _) =>
+    match checkHeader crc bytes h with
+    | .error e => .error e
+    | .ok _ =>
+      let tableOff := h.tableOff.toNat
+      let tableEnd := tableOff + h.sectionCount.toNat * sectionEntrySize
+      match readN h.sectionCount.toNat decSectionEntry (sliceOf bytes tableOff tableEnd) with
+      | .error e => .error e
+      | .ok (entries, _) =>
+        match validateSectionEntries bytes.length entries with
+        | .error e => .error e
+        | .ok _ =>
+          match decodeSections h.minor bytes entries with
+          | .error e => .error e
+          | .ok sections => .ok { major := h.major, minor := h.minor, flags := h.flags, sections }
 
 /-! ## encode.rs -/
 
@@ -1531,5 +1574,112 @@ def applyBytes (crc : Bytes → UInt32) (rt : RtView) (bytes : Bytes) (resourceN
   match decode crc bytes with
   | .error e => (some (.invalidBytecode e), {})
   | .ok m => applyModule rt m resourceName
+
+/-! ## well-formed modules
+
+`Module.wf` is the (decidable, executable) hypothesis of the round-trip theorem: what a
+`BytecodeModule` value must satisfy for `decode (encode m) = m`.  Everything here is forced by the
+wire format: lengths fit their `u32` count fields, `Some(u32::MAX)` is not representable (it is
+the encoding of `None`), enum-like fields agree with the data they tag, and the redundant
+`TypeTable.offsets` are the ones `encode` writes. -/
+
+def lenOk (n : Nat) : Bool := decide (n < 4294967296)
+def optOk (o : Option UInt32) : Bool := o != some u32Max
+
+def kindMatches : TypeKind → TypeData → Bool
+  | .primitive, .primitive _ _ => true
+  | .array, .array _ _ => true
+  | .struct, .struct _ => true
+  | .enum, .enum _ _ => true
+  | .alias, .alias _ => true
+  | .subrange, .subrange _ _ _ => true
+  | .reference, .reference _ => true
+  | .union, .union _ => true
+  | .functionBlock, .pou _ => true
+  | .class, .pou _ => true
+  | .interface, .interface _ => true
+  | _, _ => false
+
+def TypeData.wf : TypeData → Bool
+  | .array _ dims => lenOk dims.length
+  | .struct fs | .union fs => lenOk fs.length
+  | .enum _ vs => lenOk vs.length
+  | .interface ms => lenOk ms.length
+  | _ => true
+
+def TypeEntry.wf (e : TypeEntry) : Bool := kindMatches e.kind e.data && optOk e.nameIdx && e.data.wf
+
+def TypeTable.wf (minor : UInt16) (t : TypeTable) : Bool :=
+  lenOk t.entries.length && t.entries.all TypeEntry.wf
+    && decide (t.offsets = if minor ≥ 1 then computeTypeOffsets (t.entries.map encTypeEntry) else [])
+
+def stringWf (s : Bytes) : Bool := lenOk s.length && validUtf8 s
+def ConstEntry.wf (c : ConstEntry) : Bool := lenOk c.payload.length
+
+def RefSegment.wf : RefSegment → Bool
+  | .index is => lenOk is.length
+  | .field _ => true
+def RefEntry.wf (e : RefEntry) : Bool := lenOk e.segments.length && e.segments.all RefSegment.wf
+
+def ParamEntry.wf (minor : UInt16) (p : ParamEntry) : Bool :=
+  optOk p.defaultConstIdx && (decide (minor ≥ 1) || p.defaultConstIdx.isNone)
+def InterfaceImpl.wf (i : InterfaceImpl) : Bool := lenOk i.vtableSlots.length
+def PouClassMeta.wf (cm : PouClassMeta) : Bool :=
+  optOk cm.parentPouId && lenOk cm.interfaces.length && cm.interfaces.all InterfaceImpl.wf
+    && lenOk cm.methods.length
+def PouEntry.wf (minor : UInt16) (e : PouEntry) : Bool :=
+  optOk e.returnTypeId && optOk e.ownerPouId && lenOk e.params.length
+    && e.params.all (ParamEntry.wf minor)
+    && (e.classMeta.isSome == e.kind.isClassLike)
+    && (match e.classMeta with
+        | some cm => cm.wf
+        | none => true)
+
+def TaskEntry.wf (t : TaskEntry) : Bool :=
+  optOk t.singleNameIdx && lenOk t.programNameIdx.length && lenOk t.fbRefIdx.length
+def ResourceEntry.wf (r : ResourceEntry) : Bool := lenOk r.tasks.length && r.tasks.all TaskEntry.wf
+def IoBinding.wf (b : IoBinding) : Bool := optOk b.typeId
+def VarMetaEntry.wf (e : VarMetaEntry) : Bool := optOk e.initConstIdx
+
+def SectionData.wf (minor : UInt16) : SectionData → Bool
+  | .stringTable t | .debugStringTable t => lenOk t.length && t.all stringWf
+  | .typeTable t => t.wf minor
+  | .constPool es => lenOk es.length && es.all ConstEntry.wf
+  | .refTable es => lenOk es.length && es.all RefEntry.wf
+  | .pouIndex es => lenOk es.length && es.all (PouEntry.wf minor)
+  | .pouBodies _ => true
+  | .resourceMeta rs => lenOk rs.length && rs.all ResourceEntry.wf
+  | .ioMap bs => lenOk bs.length && bs.all IoBinding.wf
+  | .debugMap es => lenOk es.length
+  | .varMeta es => lenOk es.length && es.all VarMetaEntry.wf
+  | .retainInit es => lenOk es.length
+  | .raw _ => true
+
+/-- the data variant is the one `decode_section_data` produces for this section id -/
+def idMatches (id : UInt16) : SectionData → Bool
+  | .stringTable _ => id == idStringTable
+  | .debugStringTable _ => id == idDebugStringTable
+  | .typeTable _ => id == idTypeTable
+  | .constPool _ => id == idConstPool
+  | .refTable _ => id == idRefTable
+  | .pouIndex _ => id == idPouIndex
+  | .pouBodies _ => id == idPouBodies
+  | .resourceMeta _ => id == idResourceMeta
+  | .ioMap _ => id == idIoMap
+  | .debugMap _ => id == idDebugMap
+  | .varMeta _ => id == idVarMeta
+  | .retainInit _ => id == idRetainInit
+  | .raw _ => !(decide (1 ≤ id.toNat ∧ id.toNat ≤ 12))
+
+def Section.wf (minor : UInt16) (s : Section) : Bool := idMatches s.id s.data && s.data.wf minor
+
+/-- size of the encoded container: header, table, padding, padded payloads -/
+def encodedSize (minor : UInt16) (sections : List Section) : Nat :=
+  align4 (headerSize + sections.length * sectionEntrySize)
+    + (sections.map fun s => align4 (encodeSectionData minor s.data).length).sum
+
+def Module.wf (m : Module) : Bool :=
+  m.major == supportedMajor && decide (m.sections.length < 65536)
+    && m.sections.all (Section.wf m.minor) && lenOk (encodedSize m.minor m.sections)
 
 end TrustVerif.C11
